@@ -123,3 +123,26 @@ def toLowerAscii (c : Char) : Char :=
   if 65 ≤ c.toNat ∧ c.toNat ≤ 90 then Char.ofNat (c.toNat + 32) else c
 
 end Ord.Text
+
+namespace Ord.Text
+
+def isAscii (c : Char) : Bool := c.toNat < 128
+
+/-- byte-index split of a `&str` (`&s[..n]`, `&s[n..]`): `none` when `n` is past the end or not on
+a char boundary — which is a **panic** in Rust -/
+def splitAtByte : Nat → List Char → Option (List Char × List Char)
+  | n, [] => if n = 0 then some ([], []) else none
+  | n, c :: cs =>
+    if n = 0 then some ([], c :: cs)
+    else if c.utf8Size ≤ n then
+      match splitAtByte (n - c.utf8Size) cs with
+      | some (a, b) => some (c :: a, b)
+      | none => none
+    else none
+
+/-- `s.parse::<Txid>()` / `BlockHash`: exactly 64 bytes, all hex digits (either case); the
+canonical rendering (Display) is the lower-cased input -/
+def parseHash (s : List Char) : Option (List Char) :=
+  if utf8Len s = 64 ∧ s.all isHexDigit then some (s.map toLowerAscii) else none
+
+end Ord.Text
